@@ -10,6 +10,10 @@ COMMON = r'''
 #[derive(Debug, Clone, PartialEq)] struct NC(String);     // not Copy
 #[derive(Debug, Clone)] struct NoEq(i32);                  // neither PartialEq nor PartialOrd
 #[derive(Debug, Clone, PartialEq)] struct TP { pair: ((i32, i32), i32) }
+#[derive(Debug, Clone, PartialEq)] struct Dom(&'static str);
+#[derive(Debug, Clone, PartialEq)] struct Em(String);
+impl assert_struct::Like<Dom> for Em { fn like(&self, d: &Dom) -> bool { self.0.ends_with(d.0) } }
+#[derive(Debug, Clone, PartialEq)] struct TwoR { s: String, e: Em, n: i32 }
 '''
 
 # target types: (rust type, value expression, [(form name, matching pattern, non-matching pattern)])
@@ -65,6 +69,10 @@ TARGETS = {
     "array": ("[i32; 3]", "[1, 2, 3]", [("arr_slice", "[1, 2, 3]", "[1, 2]"), ("arr_rest", "[1, ..]", "[2, ..]"), ("arr_set", "#(3, 2, 1)", "#(1, 2)")]),
     "hashset": ("HashSet<i32>", "HashSet::from([1, 2, 3])", [("hs_set", "#(3, 1, 2)", "#(1, 2)"), ("hs_rest", "#(2, ..)", "#(4, ..)")]),
     "hashmap": ("HashMap<String, i32>", "HashMap::from([(\"a\".to_string(), 1)])", [("hm_map", "#{ \"a\": 1 }", "#{ \"a\": 2 }"), ("hm_rest", "#{ \"a\": > 0, .. }", "#{ \"b\": 1, .. }")]),
+    # strings reached only through auto-deref (a regex / Like pattern must find the String behind the pointer in every position), bytes
+    "rc_string": ("std::rc::Rc<String>", "std::rc::Rc::new(\"hello\".to_string())", [("rc_regex", "=~ r\"^he\"", "=~ r\"^je\""), ("rc_like", "=~ pat", "=~ nopat")]),
+    "box_string": ("Box<String>", "Box::new(\"hello\".to_string())", [("bx_regex", "=~ r\"^he\"", "=~ r\"^je\"")]),
+    "u8": ("u8", "b'a'", [("byte_lit", "b'a'", "b'b'"), ("byte_int", "97", "98"), ("byte_range", "b'a'..=b'z'", "b'A'..=b'Z'")]),
     "opt_string": ("Option<String>", "Some(\"hello\".to_string())", [("some_str", "Some(\"hello\")", "Some(\"jello\")"), ("some_regex", "Some(=~ r\"^he\")", "Some(=~ r\"^je\")")]),
 }
 
